@@ -10,16 +10,16 @@ def managerLit : List (String × String) := [("AddrPolicy", "&policy.Addressing{
 /-- FullAssembly: the fields of the policy.Addressing literal, by origin -/
 def addressingLit : List (String × String) := [("Config", "$0")]
 
-/-- FullAssembly: the fields of the Services literal, by origin -/
-def servicesLit : List (String × String) := [("ExtHost", "@extension.NewHost#1"), ("LuaHost", "@luahost.New#1"), ("MsgHub", "@msghub.New#1"), ("POP3Server", "@pop3.NewServer#1"), ("RetentionScanner", "@storage.NewRetentionScanner#1"), ("SMTPServer", "@smtp.NewServer#1"), ("WebServer", "@web.NewServer#1"), ("ready", "&sync.WaitGroup{}")]
+/-- FullAssembly: the fields of the Services literal, by origin; an unexported field appears as `~<its declared type>` -/
+def servicesLit : List (String × String) := [("ExtHost", "@extension.NewHost#1"), ("LuaHost", "@luahost.New#1"), ("MsgHub", "@msghub.New#1"), ("POP3Server", "@pop3.NewServer#1"), ("RetentionScanner", "@storage.NewRetentionScanner#1"), ("SMTPServer", "@smtp.NewServer#1"), ("WebServer", "@web.NewServer#1"), ("~*sync.WaitGroup", "&sync.WaitGroup{}")]
 
 /-- FullAssembly: writes through its parameter (the configuration is only read) -/
 def assemblyParamWrites : List String := []
 
-/-- Services.Start: the goroutines it starts (sorted), arguments by origin -/
-def startedServices : List String := ["$recv.MsgHub.Start($0)", "$recv.POP3Server.Start($0,$recv.makeReadyFunc())", "$recv.RetentionScanner.Start($0)", "$recv.SMTPServer.Start($0,$recv.makeReadyFunc())", "$recv.WebServer.Start($0,$recv.makeReadyFunc())"]
+/-- Services.Start: the goroutines it starts (sorted), arguments by origin; `~readyFunc` = an unexported method that Add(1)s the *sync.WaitGroup field Start waits on and returns a function literal that calls that field's Done (through a sync.Once) -/
+def startedServices : List String := ["$recv.MsgHub.Start($0)", "$recv.POP3Server.Start($0,$recv.~readyFunc())", "$recv.RetentionScanner.Start($0)", "$recv.SMTPServer.Start($0,$recv.~readyFunc())", "$recv.WebServer.Start($0,$recv.~readyFunc())"]
 
-/-- Services.setupNotify: the failure channels merged into Notify() (sorted) -/
+/-- the failure channels merged into Notify(): the receives of the select cases in the unexported helper(s) FullAssembly calls on the Services value it returns (sorted; $recv = that value) -/
 def watchedServices : List String := ["$recv.POP3Server.Notify()", "$recv.SMTPServer.Notify()", "$recv.WebServer.Notify()"]
 
 /-- FromConfig: the key the constructor table is indexed with (unique) -/
@@ -97,7 +97,10 @@ def registeredConstructors : List (String × String) := [("file", "file.New"), (
 /-- cmd/inbucket main(): the configuration / assembly / start / cancel / drain calls in source order (repetitions collapsed) -/
 def mainSequence : List String := ["config.Process", "server.FullAssembly(@config.Process#1)", "@server.FullAssembly#1.Start(@context.WithCancel#1)", "@context.WithCancel#1.1", "@server.FullAssembly#1.SMTPServer.Drain", "@server.FullAssembly#1.POP3Server.Drain", "@server.FullAssembly#1.RetentionScanner.Join"]
 
-/-- cmd/inbucket main(): (labelled breaks out of the signal loop, those NOT preceded in their branch by the cancel function of the services' context) -/
+/-- cmd/inbucket main(): every way out of the loop around the select that receives from the signal.Notify channel / from services.Notify(), with `true` when on EVERY path leaving the loop that way the cancel function of the services' context (2nd result of context.WithCancel) is called — inside the loop before the break, or unconditionally right after the loop before the first Drain / Join call.  signal:<S> = the signal case when the received value is <S> (conditions on it evaluated: switch, if/else, guard-clause and De Morgan forms alike; S ranges over the signals handed to signal.Notify); notify = the services.Notify() case; anything not understood gives an entry no tie accepts -/
+def mainLoopWays : List (String × Bool) := [("notify", true), ("signal:syscall.SIGINT", true), ("signal:syscall.SIGTERM", true)]
+
+/-- cmd/inbucket main(): (ways out of the signal loop as listed in mainLoopWays, those on which the services' context is NOT cancelled) -/
 def mainLoopExits : Nat × Nat := (3, 0)
 
 /-- cmd/inbucket main(): the signals handed to signal.Notify (sorted) -/
